@@ -13,6 +13,7 @@ import (
 	"image/draw"
 	"math"
 	"os"
+	"runtime"
 	"strings"
 )
 
@@ -357,13 +358,46 @@ func init() {
 					src.SetRGBA64(x, y, color.RGBA64{a / 3, a / 2, a, a})
 				}
 			}
+			// the same pixels as a genuinely 16-bit source of another type (what a 16-bit PNG decodes to)
+			srcN := image.NewNRGBA64(sr)
+			for y := sr.Min.Y; y < sr.Max.Y; y++ {
+				for x := sr.Min.X; x < sr.Max.X; x++ {
+					a := uint16(((x+3)*9+(y+5))*811 + 7)
+					srcN.SetNRGBA64(x, y, color.NRGBA64{a ^ 0x5555, a / 2, a, a})
+				}
+			}
+			for _, par := range []int{2, 5} {
+				dn := image.NewRGBA64(sr)
+				tc.run(dn, srcN, par)
+				for y := sr.Min.Y; y < sr.Max.Y; y++ {
+					for x := sr.Min.X; x < sr.Max.X; x++ {
+						_, _, _, wa := srcN.At(x, y).RGBA()
+						_, _, _, ga := dn.At(x, y).RGBA()
+						c.res.count("image-alpha-geometry", fmt.Sprint(tc.name, "nrgba64", par, x, y), true)
+						if ga != wa {
+							c.res.fail(Failure{Class: "C14:image-alpha:NRGBA64-source", Desc: fmt.Sprintf("%s from an *image.NRGBA64 source into an *image.RGBA64 destination (parallelism %d) changed the alpha of pixel (%d,%d)", tc.name, par, x, y),
+								Input: map[string]interface{}{"transform": tc.name, "src_pixel": fmt.Sprint(srcN.At(x, y)), "parallelism": par}, Got: fmt.Sprintf("%#x", ga), Want: fmt.Sprintf("%#x", wa)})
+							y = sr.Max.Y
+							break
+						}
+					}
+				}
+			}
 			canvas := image.NewRGBA64(image.Rect(-8, -9, 12, 11))
 			for _, dst := range []*image.RGBA64{image.NewRGBA64(image.Rect(-3, -5, 9, 7)), canvas.SubImage(image.Rect(-3, -5, 6, 5)).(*image.RGBA64)} {
-				for _, par := range []int{2, 3, 4} {
+				// (parallelism 8 with the process limited to 2 processors: more workers than processors)
+				for _, par := range []int{2, 3, 4, -8} {
+					restore := func() {}
+					if par < 0 {
+						par = -par
+						old := runtime.GOMAXPROCS(2)
+						restore = func() { runtime.GOMAXPROCS(old) }
+					}
 					for i := range dst.Pix {
 						dst.Pix[i] = 0x55
 					}
 					tc.run(dst, src, par)
+					restore()
 					bad := false
 					for y := sr.Min.Y; y < sr.Max.Y && !bad; y++ {
 						for x := sr.Min.X; x < sr.Max.X; x++ {
